@@ -1,6 +1,6 @@
 (* Laws of the typed decoding semantics (Model/Decode.v). *)
 From Coq Require Import NArith ZArith List Bool Arith Lia.
-From GJ Require Import Base.Bytes Spec.Json Model.Int Model.StrDec Model.Enc Model.Decode Proofs.IntEncP.
+From GJ Require Import Base.Bytes Spec.Json Model.Int Model.StrDec Model.Enc Model.Decode Model.Base64 Proofs.IntEncP Proofs.Base64P.
 Import ListNotations.
 Open Scope N_scope.
 
@@ -48,7 +48,7 @@ Proof. induction fs as [|y r IH]; intros H; [destruct H|]. cbn [fold_right]. des
 Lemma zero_typed_n : forall n t, (tsize t <= n)%nat -> wf_ty t = true -> has_type t (zero t) = true.
 Proof.
   induction n as [|n IH]; intros t Hs Hw; [destruct t; cbn in Hs; lia|].
-  destruct t as [ |bits|bits| | |e|e|k e|e|fs]; try reflexivity.
+  destruct t as [ |bits|bits| | |e|e|k e|e|fs| ]; try reflexivity.
   - cbn [zero has_type]. apply width_zero_in_range. exact Hw.
   - cbn [zero has_type]. apply width_zero_in_range. exact Hw.
   - cbn [zero has_type wf_ty tsize] in *. rewrite repeat_length, Nat.eqb_refl. cbn [andb]. apply forallb_repeat. apply IH; [lia|exact Hw].
@@ -65,11 +65,11 @@ Lemma zero_typed t : wf_ty t = true -> has_type t (zero t) = true.
 Proof. apply (zero_typed_n (tsize t)). lia. Qed.
 
 (* ---------- null ---------- *)
-Theorem dec_null_nilable f t init : (match t with TIface | TPtr _ | TSlice _ | TMap _ => true | _ => false end) = true ->
+Theorem dec_null_nilable f t init : (match t with TIface | TPtr _ | TSlice _ | TMap _ | TBytes => true | _ => false end) = true ->
   dec (S f) t (JLeaf TNull) init = DOk VNil.
 Proof. destruct t; intro H; try discriminate H; reflexivity. Qed.
 
-Theorem dec_null_other f t init : (match t with TIface | TPtr _ | TSlice _ | TMap _ => true | _ => false end) = false ->
+Theorem dec_null_other f t init : (match t with TIface | TPtr _ | TSlice _ | TMap _ | TBytes => true | _ => false end) = false ->
   dec (S f) t (JLeaf TNull) init = DOk init.
 Proof. destruct t; intro H; try discriminate H; reflexivity. Qed.
 
@@ -209,12 +209,23 @@ Proof.
     apply (Hk kf ft (nth_error_In _ _ Hn) x (nth i cur VNil) v); [apply (fields_typed_nth fs cur i kf ft Hc Hn)|exact D].
 Qed.
 
+(* []byte: its values are those of a slice of uint8 *)
+Lemma has_type_u8 x : has_type (TUint 8) x = match x with VInt z => in_range false 8 z | _ => false end.
+Proof. destruct x; reflexivity. Qed.
+Lemma has_type_bytes l : has_type TBytes (VSlice l) = has_type (TSlice (TUint 8)) (VSlice l).
+Proof. reflexivity. Qed.
+Lemma bytes_values_typed bs : Forall (fun b => b < 256) bs -> has_type TBytes (VSlice (map (fun x => VInt (Z.of_N x)) bs)) = true.
+Proof.
+  intro H. cbn [has_type]. induction H as [|b r Hb Hr IH]; [reflexivity|]. cbn [map forallb]. rewrite IH, andb_true_r.
+  unfold in_range. apply andb_true_iff. split; [apply Z.leb_le|apply Z.ltb_lt]; lia.
+Qed.
+
 Theorem dec_typed : forall f t, wf_ty t = true -> keeps t (dec f t).
 Proof.
   induction f as [|f IH]; intros t Hw x start v Hs H; [discriminate H|].
   cbn [dec] in H. destruct (is_null x) eqn:En.
   - destruct t; inversion H; subst; try exact Hs; reflexivity.
-  - destruct t as [ |bits|bits| | |e|e|k e|e|fs]; cbn [wf_ty] in Hw.
+  - destruct t as [ |bits|bits| | |e|e|k e|e|fs| ]; cbn [wf_ty] in Hw.
     + destruct x as [[]| |]; inversion H; reflexivity.
     + destruct x as [[]| |]; try discriminate H. destruct (int_of true bits raw) as [z|] eqn:E; inversion H; subst. cbn [has_type]. exact (int_of_in_range true bits raw z Hw E).
     + destruct x as [[]| |]; try discriminate H. destruct (int_of false bits raw) as [z|] eqn:E; inversion H; subst. cbn [has_type]. exact (int_of_in_range false bits raw z Hw E).
@@ -240,6 +251,16 @@ Proof.
       apply (struct_loop_typed (dec f) fs (fun k ft Hin => IH ft (Hw (k, ft) Hin)) l (match start with VStruct o => o | _ => map (fun kt : list N * ty => zero (snd kt)) fs end) v); [|exact H].
       destruct start; try (rewrite <- has_type_struct; apply (zero_typed (TStruct fs)); cbn [wf_ty]; apply forallb_forall; exact Hw).
       rewrite <- has_type_struct. exact Hs.
+    + destruct x as [[]|l|]; try discriminate H.
+      * destruct (unq body) as [s|]; [|discriminate H]. destruct (b64dec s) as [bs|] eqn:E; inversion H; subst.
+        apply bytes_values_typed. exact (b64dec_bytes s bs E).
+      * assert (Hv : exists items, v = VSlice items).
+        { clear -H. revert H. generalize (match start with VSlice o => o | _ => [] end) as old. generalize (@nil gv) as acc.
+          induction l as [|y l IHl]; intros acc old H; cbn [slice_loop] in H; [inversion H; eexists; reflexivity|].
+          destruct (dec f (TUint 8) y (match old with o :: _ => o | [] => zero (TUint 8) end)); try discriminate H. exact (IHl _ _ H). }
+        destruct Hv as [items ->]. rewrite has_type_bytes.
+        apply (slice_loop_typed (TUint 8) (dec f (TUint 8)) (IH (TUint 8) eq_refl) eq_refl l (match start with VSlice o => o | _ => [] end) [] (VSlice items)); [|reflexivity|exact H].
+        destruct start; try reflexivity. exact Hs.
 Qed.
 
 (* ---------- what the document does not address keeps its value ---------- *)
